@@ -97,7 +97,7 @@ func main() {
 
 	r := vx.NewReport(property, *tier, "exploration")
 	r.Rule = "Bounded grammar of Socket.IO packets: types {CONNECT, DISCONNECT, EVENT, ACK, CONNECT_ERROR} (binary variants arise from content), " +
-		"namespaces {/, /a, /a-b_c, /ü, /a/b, /1}, ack ids {none, 0, 1, 9, 10, 2^32, 2^63, 2^64-1}, event names = every string of length <= 3 (quick: <= 2) over {a \" \\ ü space [ ] , 1}, " +
+		"namespaces {/, /a, /a-b_c, /ü, /a/b, /1} plus every one-character namespace over printable ASCII (except the comma that ends the field) and every two-character one over 14 hostile characters, ack ids {none, 0, 1, 9, 10, 2^32, 2^63, 2^64-1}, event names = every string of length <= 3 (quick: <= 2) over {a \" \\ ü space [ ] , 1}, " +
 		"argument trees with <= 3 top-level values and depth <= 2 over leaves {1, -1.5, true, nil, \"x\\\"y\", Binary{}, Binary{0,255}, Binary(placeholder-looking JSON)} and containers " +
 		"{[]any, map[string]any, S (struct with Binary field), *S, []Binary, Plain, *Plain} plus a block of statically typed nested containers. " +
 		"The full cross product is out of reach, so each dimension is enumerated COMPLETELY against a small representative set of the other dimensions; the blocks and their sizes are listed under coverage.blocks. " +
